@@ -732,3 +732,5 @@ M('cli-D65-shape-generated-ids-ignore-user-ids', ['C12'], CLI, "    used_ids = {
 M('cli-generated-id-not-recorded', ['C12'], CLI, "            config.id = new_id\n\n            used_ids.add(new_id)\n", "            config.id = new_id\n", ['C12.R6'])
 M('cli-single-name-not-first-choice', ['C12'], CLI, "            new_id = filter_name if len(configs) == 1 else None\n", "            new_id = None\n", ['C12.R6'])
 M('run-D66-shape-exit-kind-from-exc-info', ['C08'], F, "                        is_exc = isinstance(in_flight, Exception)  #", "                        is_exc = isinstance(sys.exc_info()[1], Exception)  #", ['C08.R10'])
+M('zmq-D67-shape-pub-closed-with-default-linger', ['C05'], Z, "            pub.close(linger=ZMQ_EXPLICIT_LINGER)  #", "            pub.close()  #", ['C05.R12'])
+M('zmq-pub-closed-with-infinite-linger', ['C05'], Z, "            pub.close(linger=ZMQ_EXPLICIT_LINGER)  #", "            pub.close(linger=-1)  #", ['C05.R12'])
